@@ -25,7 +25,7 @@ from __future__ import annotations
 
 from . import encryptor as E
 from .pdfwriter import HexStr, Name, Ref, Revision, Stream, build
-from .fontpdf import tounicode_cmap
+from .fontpdf import fontfile_stream, tounicode_cmap, type1_header
 from ..tlc import MachineryError
 
 DOCS = ("dA", "dB", "dC")
@@ -52,6 +52,13 @@ def objects(d):
     if cs:
         res1["ColorSpace"] = cs
         res2["ColorSpace"] = dict(cs)
+    if d == "dA":
+        # HasDirect: the /Font dictionaries mix indirect and direct entries - page 1: /F1 5 0 R, then the DIRECT /F4, then /F2;
+        # page 2: the direct /F4 first.  /F4 is /F1's font with other widths.
+        f4 = {"Type": Name("Font"), "Subtype": Name("TrueType"), "BaseFont": Name("VerifSans"), "FirstChar": C1, "LastChar": C2,
+              "Widths": [900, 300], "FontDescriptor": Ref(10), "Encoding": Name("WinAnsiEncoding")}
+        res1["Font"] = {"F1": Ref(5), "F4": f4, "F2": Ref(6)}
+        res2["Font"] = {"F4": dict(f4), "F1": Ref(5), "F3": Ref(18)}
     if d == "dB":
         # page 1 defines (and paints) a form /Fm1; page 2 has an EMPTY /Resources dictionary
         res1["XObject"] = {"Fm1": Ref(20)}
@@ -65,7 +72,10 @@ def objects(d):
     else:
         f1["Encoding"] = Name("WinAnsiEncoding")
     if d == "dC":
+        # HasBuiltin: a Type 1 font WITHOUT /Encoding; its embedded program (object 23) says StandardEncoding def, dup 65 /Delta put
         f1["ToUnicode"] = Ref(11)
+        f1["Subtype"] = Name("Type1")
+        del f1["Encoding"]
     objs[5] = f1
     objs[6] = {"Type": Name("Font"), "Subtype": Name("Type0"), "BaseFont": Name("VerifMincho"),
                "Encoding": Name(CMAPNAME[d]), "DescendantFonts": [Ref(9)]}
@@ -78,8 +88,9 @@ def objects(d):
         # HasTie: nine identical one-glyph boxes at pairwise equal distances (the grouping order needs a tie-break)
         grid = b" /F1 10 Tf " + b" ".join(b"1 0 0 1 %d %d Tm <42> Tj" % (60 + 60 * j, 400 - 60 * i)
                                           for i in range(3) for j in range(3))
+    direct = b" /F4 10 Tf 1 0 0 1 50 500 Tm <4142> Tj" if d == "dA" else b""
     objs[7] = Stream({}, b"/CS0 cs " + col + b" BT /F1 10 Tf 1 0 0 1 50 700 Tm <4142> Tj /F2 10 Tf 1 0 0 1 50 600 Tm <"
-                     + two + b"> Tj" + grid + b" ET" + (b" /Fm1 Do" if d == "dB" else b""))
+                     + two + b"> Tj" + direct + grid + b" ET" + (b" /Fm1 Do" if d == "dB" else b""))
     # HasInline: page 2 of every document carries an inline image
     if d == "dB":
         # the names /CS0 /F1 /Fm1 are NOT defined on this page (empty /Resources): default colour space, default font, no form
@@ -87,7 +98,7 @@ def objects(d):
                          + b" BT /F1 10 Tf 1 0 0 1 50 700 Tm <4241> Tj ET /Fm1 Do")
     else:
         objs[8] = Stream({}, b"q 20 0 0 20 200 700 cm BI /W 1 /H 1 /BPC 8 /CS /G /F /AHx ID 7f> EI Q\n/CS0 cs " + col
-                         + b" BT /F1 10 Tf 1 0 0 1 50 700 Tm <4241> Tj /F3 10 Tf 1 0 0 1 50 600 Tm <" + two + b"> Tj ET")
+                         + b" BT /F1 10 Tf 1 0 0 1 50 700 Tm <4241> Tj /F3 10 Tf 1 0 0 1 50 600 Tm <" + two + b"> Tj" + direct + b" ET")
     cid = {"Type": Name("Font"), "Subtype": Name("CIDFontType0"), "BaseFont": Name("VerifMincho"),
            "CIDSystemInfo": {"Registry": b"Adobe", "Ordering": b"Japan1", "Supplement": 2},
            "FontDescriptor": Ref(12), "DW": DW[d]}
@@ -99,6 +110,10 @@ def objects(d):
     objs[9] = cid
     objs[10] = {"Type": Name("FontDescriptor"), "FontName": Name("VerifSans"), "Flags": 32, "FontBBox": [0, -200, 1000, 800],
                 "ItalicAngle": 0, "Ascent": 800, "Descent": -200, "CapHeight": 700, "StemV": 80, "MissingWidth": 333}
+    objs[23] = Stream({}, b"% unused in this document\n")
+    if d == "dC":
+        objs[10]["FontFile"] = Ref(23)
+        objs[23] = fontfile_stream(type1_header([(C1, "Delta")], fontname="VerifSans", standard=True))
     if d == "dC":
         objs[11] = Stream({}, tounicode_cmap([("bfchar", [(C2, "Y")])], usecmap="H"))
     else:
@@ -186,7 +201,7 @@ def token_table(part):
         return {"J11v": uv.get_unichr(h1), "J12v": uv.get_unichr(h2), "J21v": uv.get_unichr(v1)}
     uh = CMapDB.get_unicode_map("Adobe-Japan1", False)
     win = EncodingDB.encodings["WinAnsiEncoding"]
-    return {"A": win[C1], "B": win[C2], "Omega": name2unicode("Omega"), "Y": "Y", "T": "T", "U": "U", "cid?": "(cid:%d)" % C2,
+    return {"A": win[C1], "B": win[C2], "Omega": name2unicode("Omega"), "Y": "Y", "T": "T", "U": "U", "Delta": name2unicode("Delta"), "cid?": "(cid:%d)" % C2,
             "J11h": uh.get_unichr(h1), "J12h": uh.get_unichr(h2), "J21h": uh.get_unichr(v1)}
 
 
